@@ -208,6 +208,16 @@ def run(tier, out):
                     n_sim += 1
                     out.nontrivial.add(("history+simulation", seed))
                     break
+            # ... and after the system was exported with its calculated attributes (an observation, not an edit)
+            try:
+                ns.system_to_json(h.live[efx.system_name(h.model)], save_calculated_attributes=True)
+                exported = True
+            except Exception:   # noqa: an export that raises is C13's subject
+                exported = False
+            if exported:
+                tid += 1
+                events += system_events(ns, tid, objs, f"seed {seed} after-export")
+                out.nontrivial.add(("history+export", seed))
         log.close()
         # builder classes
         rng = random.Random(base + 3)
